@@ -42,8 +42,15 @@ def randn(rng, shape, cplx=False):
 
 
 def rand_cores(rng, row_dims, col_dims, ranks, cplx=False, kind='gauss'):
+    """cplx: False / True / 'mixed' (each core independently real or complex; at least one complex)"""
     cores = []
+    mixed = cplx == 'mixed'
+    flags = [bool(rng.integers(0, 2)) for _ in row_dims] if mixed else None
+    if mixed and not any(flags):
+        flags[int(rng.integers(0, len(flags)))] = True
     for i in range(len(row_dims)):
+        if mixed:
+            cplx = flags[i]
         shp = (ranks[i], row_dims[i], col_dims[i], ranks[i + 1])
         if kind == 'gauss':
             c = randn(rng, shp, cplx)
@@ -200,3 +207,8 @@ def right_orthonormal_cores(cores):
         cores[i - 1] = np.tensordot(cores[i - 1], r.T, axes=([3], [0]))
     cores[0] = cores[0] / np.linalg.norm(cores[0].reshape(-1))
     return cores
+
+
+def rand_cplx(rng):
+    """dtype class of a test train: real, complex, or per-core mixed"""
+    return [False, True, 'mixed'][int(rng.integers(0, 3))]
